@@ -9,6 +9,20 @@ BASE_ASSUMPTIONS = [
 ]
 
 CHECKS = {
+    "C08": {
+        "quick": [
+            {"pkg": "v2", "entries": ["VerifC08Hunk"], "params": {"N": 2, "RM": 2, "AD": 1}},
+            {"pkg": "v2", "entries": ["VerifC08Keyed"], "params": {"N": 2}},
+            {"pkg": "v2", "entries": ["VerifC08Diff"], "params": {"N": 2}},
+        ],
+        "thorough": [
+            {"pkg": "v2", "entries": ["VerifC08Hunk"], "params": {"N": 3, "RM": 2, "AD": 2}},
+            {"pkg": "v2", "entries": ["VerifC08Keyed"], "params": {"N": 3}},
+            {"pkg": "v2", "entries": ["VerifC08Diff"], "params": {"N": 2}},
+        ],
+        "covers": ["c08.hunk.set", "c08.hunk.multiset", "c08.hunk.nonarray", "c08.keyed", "c08.diff.set", "c08.diff.multiset"],
+        "outside": "more than N members, more than 2 listed removals/additions, members other than numbers (keyed: objects {id,v}), several members matching one key (assumed away), FNV collisions",
+    },
     "C06": {
         "quick": [
             {"pkg": "v2", "entries": ["VerifC06Flat"], "params": {"N": 3, "M": 2, "WRAPS": 2}},
@@ -111,7 +125,7 @@ DEFAULT_TECHNIQUE = "bounded symbolic execution of the Go SSA with SMT (z3/cvc5)
 _NA_PENDING = "check not built yet in this session (engine exists; harness pending)"
 NOT_APPLICABLE = {
     "C02": _NA_PENDING, 
-    "C08": _NA_PENDING, "C09": _NA_PENDING, "C10": _NA_PENDING, "C11": _NA_PENDING, "C12": _NA_PENDING,
+    "C09": _NA_PENDING, "C10": _NA_PENDING, "C11": _NA_PENDING, "C12": _NA_PENDING,
     "C14": _NA_PENDING, "C15": _NA_PENDING, "C17": _NA_PENDING, "C18": _NA_PENDING,
     "C16": ("quantifies over the characters of strings as they pass through yaml.v2's scanner/resolver/emitter and encoding/json "
             "(about 10k lines of third-party reflection- and regexp-driven text code); no Go symbolic engine in the image reaches that "
